@@ -186,7 +186,8 @@ pub(super) fn eval_shift_expression(
         (ConstantValue::Integer(l), ConstantValue::Integer(r)) => {
             let a = match op {
                 RightShift => l.checked_shr(r.try_into()?),
-                LeftShift => l.checked_shl(r.try_into()?),
+                // checked_shl() doesn't care about the bits shifted out
+                LeftShift => l.checked_shl(r.try_into()?).filter(|&a| a >> r == l),
             };
             a.map(ConstantValue::Integer)
                 .ok_or(ExpressionError::IntegerOverflow)
